@@ -32,7 +32,8 @@ def gen(rng, *, with_limit: bool) -> dict:
         at = 0
         if rng.random() < 0.25:
             at = rng.choice([1, 500, 1000, 2500, 5000, 20_000, 100_000])
-        jobs.append({"id": i, "queue": rng.choice(qs), "dur": d, "at": at, "fail": rng.random() < 0.1})
+        jobs.append({"id": i, "queue": rng.choice(qs), "dur": d, "at": at, "fail": rng.random() < 0.1,
+                     "cancelled": rng.random() < 0.08})
     total = sum(j["dur"] for j in jobs) + max([j["at"] for j in jobs] + [0])
     sc = {"limit": limit, "M": M, "queues": qs, "jobs": jobs, "graceful": 60.0,
           "stop_at": None if with_limit else total + 2 * S}
